@@ -167,6 +167,11 @@ CLAIMED = {
 NOT_APPLICABLE = {
     "C19": "RATTLE order/drift/reversibility are asymptotic statements about the iterated map over hundreds of Newton-converged "
            "steps; no bounded algebraic assertion over the code implies them (DESIGN section 6).",
+    "C28": "system_from_urdf coerces every requested joint coordinate / velocity through float() and reads the robot through urdf_parser_py (XML, file "
+           "I/O), then extracts quaternions with Spurrier and runs the full System.assemble with consistent initial conditions: the requested "
+           "configuration cannot be made symbolic without a source hook in four places, and even then each link multiplies Spurrier's four branches with "
+           "the assertion branches of the initial-condition solve; a concrete enumeration of URDF trees would be testing, not solver-based checking "
+           "(DESIGN section 6).",
     "C29": "observable is the content of files written by VTK's C++ writer and read back by its reader; neither file I/O nor "
            "VTK can be executed symbolically (DESIGN section 6).",
 }
